@@ -312,6 +312,38 @@ Fixpoint parse_items (fuel : nat) (l : list item) (stack : list (list elem)) (cu
 
 Definition str_eqb := list_eqb N.eqb.
 
+(* the VALUES injection specified independently of the left-to-right regex reading: walk the text from
+   the END; at every opening brace look back over blanks for the five letters of WHERE (any case); if
+   they are there, brace, blanks and letters are replaced *)
+Fixpoint rws (s : str) : str :=
+  match s with c :: r => if is_space c then rws r else s | [] => [] end.
+
+Definition rwhere (s : str) : option str :=
+  match rws s with
+  | e :: r :: e' :: h :: w :: rest =>
+      if ci e 69 && ci r 82 && ci e' 69 && ci h 72 && ci w 87 then Some rest else None
+  | _ => None
+  end.
+
+Fixpoint vsub_rev (repl_rev : str) (fuel : nat) (s : str) : str :=
+  match fuel with
+  | O => s
+  | S f =>
+      match s with
+      | [] => []
+      | c :: r =>
+          if N.eqb c cLBRACE
+          then match rwhere r with
+               | Some rest => repl_rev ++ vsub_rev repl_rev f rest
+               | None => c :: vsub_rev repl_rev f r
+               end
+          else c :: vsub_rev repl_rev f r
+      end
+  end.
+
+Definition values_spec (v : str) (q : str) : str :=
+  rev (vsub_rev (rev (s2n "WHERE { " ++ v)) (S (length q)) (rev q)).
+
 (* the suite's checker: prefixes in front; on a balanced text the wrapper is
    exactly around the non-blank top-level blocks; queries get VALUES appended *)
 Definition rewrite_spec (c : rcase) (o : str * str) : bool :=
@@ -324,7 +356,9 @@ Definition rewrite_spec (c : rcase) (o : str * str) : bool :=
       | None => true          (* unbalanced braces: the wrapper is unspecified *)
       end
   | [], None => str_eqb (fst o) q1
-  | _, _ => str_eqb (fst o) (rewrite_update c)
+  | _, g =>
+      let q2 := match g with Some g => insert_named_graph g q1 | None => q1 end in
+      str_eqb (fst o) (values_spec (values_text (r_vars c) (r_terms c)) q2)
   end.
 
 Definition rewrite_eqb (a b : str * str) : bool := str_eqb (fst a) (fst b) && str_eqb (snd a) (snd b).
